@@ -505,7 +505,7 @@ func tokenContextKey(p *Prog) string {
 
 func c09R3(c *Ctx) {
 	p := c.P
-	c.floor("C09.R3", 4)
+	c.floor("C09.R3", 5)
 	fn := p.Func(authPkg, "JWTVerifier.Verify")
 	if fn == nil {
 		c.fail("C09.R3", "anchor/JWTVerifier.Verify", token.NoPos, "not found")
@@ -555,6 +555,21 @@ func c09R3(c *Ctx) {
 			}
 		}
 	})
+	// options that weaken validation must not be handed to the parser
+	weak := ""
+	for _, f2 := range pkgFuncs(p, "pkg/auth") {
+		allInstrs(f2, func(i ssa.Instruction) {
+			if cl, ok := i.(*ssa.Call); ok {
+				n := commonName(&cl.Call)
+				for _, bad := range []string{"WithLeeway", "WithoutClaimsValidation", "WithTimeFunc", "WithPaddingAllowed"} {
+					if strings.HasSuffix(n, "jwt/v5."+bad) {
+						weak = bad + " at " + p.pos(cl.Pos())
+					}
+				}
+			}
+		})
+	}
+	c.check(weak == "", "C09.R3", fnName(fn)+"/no-weakening-options", parse.Pos(), "no leeway, custom clock or disabled claims validation", "the token parser is given "+weak+": tokens outside their validity window (golang-jwt applies a leeway to exp as well as nbf) or unvalidated claims are accepted")
 	methodsF := p.Field(authPkg, "JWTVerifier", "methods")
 	okM := false
 	if withMethods != nil {
